@@ -36,10 +36,13 @@ NS1, NS2, NS3, D1 = 'urn:v:1', 'urn:v:2', 'urn:v:3', 'urn:v:default'
 NAMES = ['a', 'b', 'p', 'item']
 ANAMES = ['href', 'at', 'title']
 MAPS_XML = [None, {}, {'p1': NS1, 'p2': NS2, 'p3': NS3, 'd': D1}, {'p1': NS2, 'p2': NS1}, {'p1': NS1}, {'p1': 'urn:other', 'p2': NS3},
-            {'p1': NS1, 'p2': NS2, '': D1}, {'p1': NS1, '': NS1}, {'p2': NS2, '': ''}, {'x': NS1, 'y': D1, '': NS2}]
+            {'p1': NS1, 'p2': NS2, '': D1}, {'p1': NS1, '': NS1}, {'p2': NS2, '': ''}, {'x': NS1, 'y': D1, '': NS2},
+            {'html': NS1, 'p2': NS2}, {'html': NS_XHTML, 'p1': NS1}]
 MAPS_H5 = [None, {}, {'svg': NS_SVG, 'math': NS_MATHML, 'xl': NS_XLINK, 'h': NS_XHTML}, {'svg': NS_MATHML, 'math': NS_SVG},
            {'svg': NS_SVG}, {'svg': NS_SVG, '': NS_XHTML}, {'h': NS_XHTML, '': NS_SVG}, {'xl': NS_XLINK, '': ''},
-           {'p1': NS_SVG, 'p2': NS_XLINK, '': NS_XHTML}, {'svg': 'urn:other'}]
+           {'p1': NS_SVG, 'p2': NS_XLINK, '': NS_XHTML}, {'svg': 'urn:other'},
+           # a caller's prefix spelled like the one soupsieve uses internally for its HTML-only selector lists
+           {'html': NS_SVG, 'h': NS_XHTML}, {'html': NS_XHTML, 'svg': NS_SVG}, {'html': NS_MATHML, '': NS_XHTML}]
 
 
 def plan(tier, seed):
@@ -154,6 +157,7 @@ def run_unit(u):
     res = {'evals': 0, 'sigs': [], 'viol': [], 'samples': [], 'counters': {}}
     cn = res['counters']
     sigs = set()
+    live = {}
 
     def bump(k, n=1):
         cn[k] = cn.get(k, 0) + n
@@ -163,22 +167,27 @@ def run_unit(u):
             root = gen_xml(rng)
             how = rng.choice(['xml', 'xml', 'api-xml'])
             maps = MAPS_XML
-            pf = [None, None, 'p1', 'p2', 'p3', '*', '', 'x', 'nope']
+            pf = [None, None, 'p1', 'p2', 'p3', '*', '', 'x', 'nope', 'html']
             names, anames = NAMES + ['root'], ANAMES + ['lang', 'class']
         else:
             root = gen_h5(rng)
             how = 'html5lib'
             maps = MAPS_H5
-            pf = [None, None, 'svg', 'math', 'h', '*', '', 'p1', 'nope']
+            pf = [None, None, 'svg', 'math', 'h', '*', '', 'p1', 'nope', 'html', 'html']
             names, anames = ['svg', 'a', 'circle', 'p', 'title', 'mi', 'div', 'g'], ['href', 'class']
         apf = [None, None] + [p for p in pf if p is not None] + (['xl', 'p2'] if how == 'html5lib' else ['xml'])
         for mi in rng.sample(range(len(maps)), 4):
             nsmap = maps[mi]
+            if isinstance(nsmap, dict) and 'html' in nsmap:
+                bump('maps_with_a_prefix_named_html')
             try:
                 case = cases.Case([root], how, ['doc'] if rng.random() < .7 else ['el', rng.randrange(1000)], nsmap=nsmap, ext={'pc': pc_ext})
             except Exception:  # noqa: BLE001
                 bump('materialise_failed')
                 continue
+            if rng.random() < .5:
+                case.live_ns = live        # the caller re-uses one dict object for all its queries
+                bump('live_map_calls')
             if not (case.is_xml or (case.top_sn.kind == 'doc' and any(k.kind == 'el' and k.ns == NS_XHTML for k in case.top_sn.kids))):
                 bump('not_namespace_aware')
                 continue
